@@ -12,7 +12,7 @@ func init() { props["C04"] = runC04 }
 
 func runC04(ctx *Ctx) error {
 	r, res := ctx.Rng, ctx.Res
-	res.Rule = "for each message (several sizes, with and without attachments) and data-block size, the transfer SOH..EOT as sent by a conforming master is altered in transit: every single-byte substitution at every offset (quick: two values per offset, thorough: eight), every single-byte deletion, insertions at every offset, and checksum-compensating pairs (+d at i, -d at j). The altered stream is fed to a real slave Session; its answer stream is fed to a real master Session holding the message. Oracle: a message handed to the inbound handler is byte-identical to the queued one (alterations that leave the payload intact, e.g. in the title, are the ones an independent reference accepts too), otherwise nothing is delivered; the sender records the message as sent only if the receiver delivered it. Correspondence: the receiving side vs the model side on the same altered bytes. Non-trivial: alteration inside the framed payload; distinct by (message, alteration)."
+	res.Rule = "for each message (several sizes, with and without attachments) and data-block size, the transfer SOH..EOT as sent by a conforming master is altered in transit: every single-byte substitution at every offset (quick: two values per offset, thorough: eight), every single-byte deletion, insertions at every offset, checksum-compensating pairs (+d at i, -d at j), and checksum-compensating changes of the payload's embedded CRC-16 (forced to 0000, ffff, swapped) and size field. The altered stream is fed to a real slave Session; its answer stream is fed to a real master Session holding the message. Oracle: a message handed to the inbound handler is byte-identical to the queued one (alterations that leave the payload intact, e.g. in the title, are the ones an independent reference accepts too), otherwise nothing is delivered; the sender records the message as sent only if the receiver delivered it. Correspondence: the receiving side vs the model side on the same altered bytes. Non-trivial: alteration inside the framed payload; distinct by (message, alteration)."
 	var lines, impl []string
 	var cases []interface{}
 	nmsg := ctx.N(3, 12)
@@ -69,6 +69,48 @@ func runC04(ctx *Ctx) error {
 			b[i] += d
 			b[j] -= d
 			alts = append(alts, alt{"compensating-pair", b, i})
+		}
+		// checksum-compensating changes aimed at the payload's own integrity fields: the embedded
+		// CRC-16 (first two payload bytes) forced to 0000 / ffff / swapped, the size field changed,
+		// with the removed byte sum added to a later payload byte so that the frame checksum holds
+		if q := bytes.IndexByte(stream[lo:hi], 0x02); q >= 0 && len(cd) > 12 {
+			first := lo + q + 2 // first payload byte in the stream (after STX, length)
+			firstLen := int(stream[lo+q+1])
+			if firstLen == 0 {
+				firstLen = 256
+			}
+			if firstLen > 8 {
+				for _, variant := range []string{"crc-0000", "crc-ffff", "crc-swapped", "size+1", "size-0"} {
+					b := append([]byte(nil), stream...)
+					old := int(b[first]) + int(b[first+1]) + int(b[first+2]) + int(b[first+3])
+					switch variant {
+					case "crc-0000":
+						b[first], b[first+1] = 0, 0
+					case "crc-ffff":
+						b[first], b[first+1] = 0xff, 0xff
+					case "crc-swapped":
+						b[first], b[first+1] = b[first+1], b[first]
+					case "size+1":
+						b[first+2]++
+					case "size-0":
+						b[first+2], b[first+3] = 0, 0
+					}
+					now := int(b[first]) + int(b[first+1]) + int(b[first+2]) + int(b[first+3])
+					// the compensation goes once into an early payload byte and once into the last
+					// payload byte (often only flush padding: the stream may still decode)
+					b2 := append([]byte(nil), b...)
+					b[first+6+r.Intn(firstLen-7)] += byte(old - now)
+					if !bytes.Equal(b, stream) {
+						alts = append(alts, alt{"compensating-field:" + variant, b, first})
+					}
+					if hi-3 > first+6 {
+						b2[hi-3] += byte(old - now)
+						if !bytes.Equal(b2, stream) {
+							alts = append(alts, alt{"compensating-field-tail:" + variant, b2, first})
+						}
+					}
+				}
+			}
 		}
 		alts = append(alts, alt{"unaltered", stream, -1})
 		for _, a := range alts {
